@@ -78,12 +78,28 @@ class DCall:
     a: int
     def __call__(self):
         return 1
+@dataclasses.dataclass
+class FinalFree(typing.Generic[T]):
+    item: typing.Final[T]
+    n: int = 0
+@dataclasses.dataclass
+class FinalBound(typing.Generic[B]):
+    item: typing.Final[B]
+@dataclasses.dataclass
+class FinalCn(typing.Generic[Cn]):
+    item: typing.Final[Cn]
+@dataclasses.dataclass
+class CVBound(typing.Generic[B]):
+    n: int = 0
+    item: typing.ClassVar[B] = 5
 """
 LEAVES = ["int", "str", "typing.Any", "object", "list", "dict", "tuple", "set", "frozenset", "typing.List", "typing.Dict",
           "typing.Tuple", "T", "B", "Cn", "typing.Callable[[int], str]", "typing.Callable[..., typing.Any]",
           "collections.abc.Callable", "type[int]", "typing.Type[DC]", "G", "G[int]", "NoHints", "DC", "E", "None",
           "typing.Literal[1, 'a']", "datetime.datetime", "decimal.Decimal", "GD", "GD[str]", "CV", "DCall", "re.Pattern[str]", "re.Pattern",
-          "IntList", "Tags", "Handlers", "IntBox", "MaybeDC", "DCId", "Pair", "Triple", "Pair[int, str]"]
+          "IntList", "Tags", "Handlers", "IntBox", "MaybeDC", "DCId", "Pair", "Triple", "Pair[int, str]",
+          # a TypeVar reached through a qualifier on a field of a user generic
+          "FinalFree", "FinalBound", "FinalCn", "CVBound", "FinalFree[int]"]
 UNARY = ["list[{0}]", "typing.List[{0}]", "tuple[{0}, ...]", "dict[str, {0}]", "typing.Optional[{0}]", "typing.Sequence[{0}]",
          "collections.abc.Mapping[str, {0}]", "frozenset[{0}]", "G[{0}]"]
 BINARY = ["tuple[{0}, {1}]", "typing.Union[{0}, {1}]", "dict[{0}, {1}]"]
@@ -196,6 +212,30 @@ def child(job):
                     pt.append(f"marshaller({src}) did not pass the values at its free-TypeVar fields through: {w!r}")
             except Exception as e:  # noqa: BLE001
                 pt.append(f"free-TypeVar field probe raised {type(e).__name__}: {e}"[:160])
+        # a free TypeVar behind a qualifier is a pass-through position too, a bound one converts by its bound
+        if src in ("FinalFree", "FinalBound", "FinalCn", "CVBound"):
+            try:
+                if src == "FinalFree":
+                    r = u({"item": s, "n": "3"})
+                    if type(r) is not t or r.item is not s or r.n != 3:
+                        pt.append(f"unmarshaller(FinalFree) did not pass the Final[T] field through / convert n: {r!r}")
+                    w = m(t(s, 3))
+                    if not (isinstance(w, dict) and w.get("item") is s and w.get("n") == 3):
+                        pt.append(f"marshaller(FinalFree) did not pass the Final[T] field through: {w!r}")
+                elif src == "CVBound":
+                    r = u({"n": "3"})
+                    if type(r) is not t or r.n != 3:
+                        pt.append(f"unmarshaller(CVBound) did not build the class: {r!r}")
+                    if m(t(4)) != {"n": 4}:
+                        pt.append(f"marshaller(CVBound) did not marshal the instance: {m(t(4))!r}")
+                else:
+                    r = u({"item": "5"})
+                    if type(r) is not t or r.item != 5 or type(r.item) is not int:
+                        pt.append(f"unmarshaller({src}) did not convert the Final[bound/constrained TypeVar] field: {r!r}")
+                    if m(t(5)) != {"item": 5}:
+                        pt.append(f"marshaller({src}) did not marshal the instance: {m(t(5))!r}")
+            except Exception as e:  # noqa: BLE001
+                pt.append(f"qualified-TypeVar field probe raised {type(e).__name__}: {e}"[:160])
         # the parameters of a class without any annotation cannot be resolved: they are pass-through positions (whatever their defaults)
         if src == "NoHints":
             try:
